@@ -3,6 +3,7 @@ import SJ.Proofs.EditHistory
 import SJ.Proofs.Edit
 import SJ.Proofs.EditString
 import SJ.Proofs.Bridge
+import SJ.Proofs.GoSet
 /-
 C13 — In-place replacement changes exactly the addressed value.
 -/
@@ -26,28 +27,31 @@ open SJ.Layout
 
 /-- **Replacement changes exactly the addressed value.** For every located document `v` held by the tape (any
     depth, any gaps from earlier edits), every two-word scalar node at `q`, every iterator positioned on it whose
-    tag passes the gate: the call succeeds, and the new tape holds `v` with exactly that node replaced — siblings,
-    keys, order and nesting untouched (they are the same tree). -/
+    tag passes the gate and whose view contains the value (`hview`: Go checks `i.tape.Tape[k]` against the length
+    `lim` of the iterator's view; `off < lim` for a two-word value, `off ≤ lim` for a one-word value — every view the
+    API makes ends at an element boundary, so an iterator standing on a value has it): the call succeeds, and the new
+    tape holds `v` with exactly that node replaced — siblings, keys, order and nesting untouched (they are the same
+    tree). -/
 theorem C13_setInt (pj : PJ) (v : LVal) (hok : Ok pj v) (q : Nat) (hnode : HasNode q (q + 2) v) (i : Iter)
-    (hoff : i.off = q + 1) (ht : inCase (caseOf swSetInt 0) i.t = true) (z : Int) :
+    (hoff : i.off = q + 1) (hview : i.off < i.lim) (ht : inCase (caseOf swSetInt 0) i.t = true) (z : Int) :
     ∃ pj' i', i.setInt pj z = .ok (pj', i') ∧ Ok pj' (substV q (.int (ofInt64 z) q) v) ∧
-      pj'.strings = pj.strings ∧ pj'.msg = pj.msg ∧ pj'.tape.size = pj.tape.size := setInt_doc pj v hok q hnode i hoff ht z
+      pj'.strings = pj.strings ∧ pj'.msg = pj.msg ∧ pj'.tape.size = pj.tape.size := setInt_doc pj v hok q hnode i hoff hview ht z
 theorem C13_setUInt (pj : PJ) (v : LVal) (hok : Ok pj v) (q : Nat) (hnode : HasNode q (q + 2) v) (i : Iter)
-    (hoff : i.off = q + 1) (ht : inCase (caseOf swSetUInt 0) i.t = true) (z : UInt64) :
+    (hoff : i.off = q + 1) (hview : i.off < i.lim) (ht : inCase (caseOf swSetUInt 0) i.t = true) (z : UInt64) :
     ∃ pj' i', i.setUInt pj z = .ok (pj', i') ∧ Ok pj' (substV q (.uint z q) v) ∧
-      pj'.strings = pj.strings ∧ pj'.msg = pj.msg ∧ pj'.tape.size = pj.tape.size := setUInt_doc pj v hok q hnode i hoff ht z
+      pj'.strings = pj.strings ∧ pj'.msg = pj.msg ∧ pj'.tape.size = pj.tape.size := setUInt_doc pj v hok q hnode i hoff hview ht z
 theorem C13_setFloat (pj : PJ) (v : LVal) (hok : Ok pj v) (q : Nat) (hnode : HasNode q (q + 2) v) (i : Iter)
-    (hoff : i.off = q + 1) (ht : inCase (caseOf swSetFloat 0) i.t = true) (bits : UInt64) :
+    (hoff : i.off = q + 1) (hview : i.off < i.lim) (ht : inCase (caseOf swSetFloat 0) i.t = true) (bits : UInt64) :
     ∃ pj' i', i.setFloat pj bits = .ok (pj', i') ∧ Ok pj' (substV q (.float bits 0 q) v) ∧
-      pj'.strings = pj.strings ∧ pj'.msg = pj.msg ∧ pj'.tape.size = pj.tape.size := setFloat_doc pj v hok q hnode i hoff ht bits
+      pj'.strings = pj.strings ∧ pj'.msg = pj.msg ∧ pj'.tape.size = pj.tape.size := setFloat_doc pj v hok q hnode i hoff hview ht bits
 theorem C13_setBool (pj : PJ) (v : LVal) (hok : Ok pj v) (q : Nat) (hnode : HasNode q (q + 1) v) (i : Iter)
-    (hoff : i.off = q + 1) (ht : inCase (caseOf swSetBool 0) i.t = true) (b : Bool) :
+    (hoff : i.off = q + 1) (hview : i.off ≤ i.lim) (ht : inCase (caseOf swSetBool 0) i.t = true) (b : Bool) :
     ∃ pj' i', i.setBool pj b = .ok (pj', i') ∧ Ok pj' (substV q (.bool b q) v) ∧
-      pj'.strings = pj.strings ∧ pj'.msg = pj.msg ∧ pj'.tape.size = pj.tape.size := setBool_doc pj v hok q hnode i hoff ht b
+      pj'.strings = pj.strings ∧ pj'.msg = pj.msg ∧ pj'.tape.size = pj.tape.size := setBool_doc pj v hok q hnode i hoff hview ht b
 theorem C13_setNull_scalar (pj : PJ) (v : LVal) (hok : Ok pj v) (q : Nat) (hnode : HasNode q (q + 2) v) (i : Iter)
-    (hoff : i.off = q + 1) (ht0 : inCase (caseOf swSetNull 0) i.t = false) (ht : inCase (caseOf swSetNull 1) i.t = true) :
+    (hoff : i.off = q + 1) (hview : i.off < i.lim) (ht0 : inCase (caseOf swSetNull 0) i.t = false) (ht : inCase (caseOf swSetNull 1) i.t = true) :
     ∃ pj' i', i.setNull pj = .ok (pj', i') ∧ Ok pj' (substV q (.null q) v) ∧
-      pj'.strings = pj.strings ∧ pj'.msg = pj.msg ∧ pj'.tape.size = pj.tape.size := setNull_scalar_doc pj v hok q hnode i hoff ht0 ht
+      pj'.strings = pj.strings ∧ pj'.msg = pj.msg ∧ pj'.tape.size = pj.tape.size := setNull_scalar_doc pj v hok q hnode i hoff hview ht0 ht
 /-- A disallowed call returns an error; the model being functional, there is no new tape. -/
 theorem C13_gate_int (pj : PJ) (i : Iter) (z : Int) (ht : inCase (caseOf swSetInt 0) i.t = false) :
     i.setInt pj z = .error .generic := setInt_gate pj i z ht
@@ -61,11 +65,11 @@ theorem C13_gate_null (pj : PJ) (i : Iter) (h0 : inCase (caseOf swSetNull 0) i.t
     wherever stored and however shared (after a Deserialize equal strings share one stretch of `Message`),
     reads as before. -/
 theorem C13_setString (pj : PJ) (v : LVal) (hok : Ok pj v) (q : Nat) (hnode : HasNode q (q + 2) v) (i : Iter)
-    (hoff : i.off = q + 1) (ht : inCase (caseOf swSetStringBytes 0) i.t = true) (sv : Bytes)
+    (hoff : i.off = q + 1) (hview : i.off < i.lim) (ht : inCase (caseOf swSetStringBytes 0) i.t = true) (sv : Bytes)
     (hsmall : pj.strings.size + sv.size < 2^55) :
     ∃ pj' i', i.setStringBytes pj sv = .ok (pj', i') ∧ Ok pj' (substV q (.str sv.toList q) v) ∧
       pj'.strings = pj.strings ++ sv ∧ pj'.msg = pj.msg ∧ pj'.tape.size = pj.tape.size :=
-  setString_doc pj v hok q hnode i hoff ht sv hsmall
+  setString_doc pj v hok q hnode i hoff hview ht sv hsmall
 theorem C13_gate_string (pj : PJ) (i : Iter) (s : Bytes) (ht : inCase (caseOf swSetStringBytes 0) i.t = false) :
     i.setStringBytes pj s = .error .generic := setString_gate pj i s ht
 
@@ -73,11 +77,12 @@ theorem C13_gate_string (pj : PJ) (i : Iter) (s : Bytes) (ht : inCase (caseOf sw
     above), any iterator standing on the document in the new tape reads back the document with that one value
     replaced. -/
 theorem C13_setInt_then_read (pj : PJ) (v : LVal) (hok : Ok pj v) (htight : WalkLayout.Tight v) (q : Nat)
-    (hnode : HasNode q (q + 2) v) (i : Iter) (hoff : i.off = q + 1) (ht : inCase (caseOf swSetInt 0) i.t = true) (z : Int) :
+    (hnode : HasNode q (q + 2) v) (i : Iter) (hoff : i.off = q + 1) (hview : i.off < i.lim)
+    (ht : inCase (caseOf swSetInt 0) i.t = true) (z : Int) :
     ∃ pj' i', i.setInt pj z = .ok (pj', i') ∧
       ∀ (j : Iter) (fuel : Nat), WalkLayout.OnNode pj' (substV q (.int (ofInt64 z) q) v) j → 2 * (j.lim - j.off) + 2 < fuel →
         owalkValue pj' j fuel = .ok (WalkLayout.toOVal (substV q (.int (ofInt64 z) q) v)) := by
-  obtain ⟨pj', i', h1, h2, _⟩ := setInt_doc pj v hok q hnode i hoff ht z
+  obtain ⟨pj', i', h1, h2, _⟩ := setInt_doc pj v hok q hnode i hoff hview ht z
   exact ⟨pj', i', h1, fun j fuel hon hf =>
     WalkLayout.owalkValue_node pj' _ j fuel h2 (WalkLayout.subst_tight q _ rfl (by simp [WalkLayout.Tight]) v htight) hon hf⟩
 
@@ -116,5 +121,37 @@ theorem C13_history_refused (ops : List EOp) (pj : PJ) (v : LVal) (hok : Ok pj v
 open SJ.EditHistory in
 theorem C13_refused_iff_gate (pj : PJ) (op : EOp) (e : Err) :
     applyOp pj op = .error e ↔ gateOf op (tagAt pj op.pos) = false ∧ e = .generic := applyOp_error_iff pj op e
+
+open SJ.GoSem SJ.GoIter SJ.GoSet in
+/-- **The six `Set*` functions of the model are the meaning of their Go source.** `Generated.goIter_SetFloat` … `goIter_SetNull`,
+    `goIter_SetStringBytes` are the syntax trees the translator prints from `parsed_json.go` on every run (the type gate
+    `switch i.t`, the two tape writes through the iterator's *view* — an index beyond `len(i.tape.Tape)` panics —, the
+    NOP-fill loop of `SetNull` on a container, the append to the shared string buffer, the updates of `i.t`/`i.cur`).
+    For every document, every iterator whose view lies inside the tape and enough fuel for the fill loop, interpreting
+    them gives exactly `Iter.setFloat` … of the hand model: `nil` with the same tape, string buffer and receiver; or a
+    non-nil error with NOTHING changed, exactly when the model refuses; or a panic exactly when the model panics. So
+    `C13_history` and the single-step theorems are about this source. (`SetNull` on a container compares `int(i.cur)`: the
+    premise `cur < 2^63` holds for every 56-bit payload.) -/
+theorem C13_set_follows_source (pj : PJ) (i : Iter) (hl : i.lim ≤ pj.tape.size) (fuel : Nat) :
+    (∀ bits, SimSet pj i (runFun goFuns goIter_SetFloat fuel
+        { env := envOf "i" i ++ [("Strings.B", .bytes pj.strings), ("v", .u64 bits)], tape := pj.tape })
+      (i.setFloat pj bits)) ∧
+    (∀ v, SimSet pj i (runFun goFuns goIter_SetInt fuel
+        { env := envOf "i" i ++ [("Strings.B", .bytes pj.strings), ("v", .int v)], tape := pj.tape })
+      (i.setInt pj v)) ∧
+    (∀ v, SimSet pj i (runFun goFuns goIter_SetUInt fuel
+        { env := envOf "i" i ++ [("Strings.B", .bytes pj.strings), ("v", .u64 v)], tape := pj.tape })
+      (i.setUInt pj v)) ∧
+    (∀ v, SimSet pj i (runFun goFuns goIter_SetStringBytes fuel
+        { env := envOf "i" i ++ [("Strings.B", .bytes pj.strings), ("v", .bytes v)], tape := pj.tape })
+      (i.setStringBytes pj v)) ∧
+    (∀ v, SimSet pj i (runFun goFuns goIter_SetBool fuel
+        { env := envOf "i" i ++ [("Strings.B", .bytes pj.strings), ("v", .bool v)], tape := pj.tape })
+      (i.setBool pj v)) ∧
+    ((i.t = tagObjectStart ∨ i.t = tagArrayStart ∨ i.t = tagRoot → i.cur.toNat < 2^63) →
+      i.cur.toNat - i.off + 2 ≤ fuel → SimSet pj i (runFun goFuns goIter_SetNull fuel
+        { env := envOf "i" i ++ [("Strings.B", .bytes pj.strings)], tape := pj.tape })
+      (i.setNull pj)) :=
+  go_set_source_tie pj i hl fuel
 
 end SJ.Properties.C13
